@@ -454,6 +454,10 @@ func (d decimalSerializer) serialize(ctx context.Context, typ sql.Type, value in
 	for len(stringIntegerVal) < int(numFullDigits) {
 		stringIntegerVal = "0" + stringIntegerVal
 	}
+	if numFullDigits == 0 && stringIntegerVal == "0" {
+		// DECIMAL(M,M) stores no integer digits: the "0" before the decimal point is not encoded
+		stringIntegerVal = ""
+	}
 
 	buffer := make([]byte, length)
 	bufferPos := 0
